@@ -22,6 +22,14 @@ STRENGTHENED = {
  "C06-m1": "renderer-reuse stratum (shared with C07)",
  "C19-m2": "same renderer value rendering twice / sequences A then B compared with fresh renderers; field-state scan",
  "C19-m3": "grid-aligned, non-dyadic boxes (faces on lattice planes)",
+ "C04-m1": "staircase polygons whose short walls lie on split lines of every level, rows of those walls queried near and far",
+ "C01b-m3": "spiral parts with a negative polar radius (through the centre, negative slope, negative angles)",
+ "C10b-m1": "uniform render with more batches per layer than queue capacity + workers (GOMAXPROCS 16 vs 1)",
+ "C10b-m2": "octree/uniform renders of different shapes at the same time against the renders alone",
+ "C10b-m3": "many-copy blended array/union families; two fresh instances disagreeing sequentially is a failing input",
+ "C16b-m2": "nested unions (inner plain union under a blended outer one; inner blend set after the outer was built) against the fold over the operands passed",
+ "C16b-m3": "belongs to C10 (concurrent Evaluate): caught by ./check C10",
+ "C02b-m3": "belongs to C18 (screw periodicity for multi-start threads): caught by ./check C18",
 }
 rows = []
 for f in sorted(glob.glob(os.path.join(V, "seeded", "*", "meta.json"))):
